@@ -31,6 +31,11 @@ EXPECTED = [
 ]
 
 
+# --cap-lints allow: kanidmd_lib has #![deny(warnings)], which -A cannot override; a lint that only
+# the nightly compiler knows must not make a tree "fail to build" for the extractor.
+RUSTFLAGS = "-Zmir-opt-level=0 --cap-lints allow"
+
+
 class FactError(Exception):
     pass
 
@@ -65,6 +70,7 @@ def tree_hash(repo=None):
         if os.path.isfile(p):
             with open(p, "rb") as f:
                 h.update(hashlib.sha256(f.read()).digest())
+    h.update(RUSTFLAGS.encode())
     # the driver itself is part of the key
     for f in sorted(glob.glob(os.path.join(DRIVER_DIR, "src", "*.rs"))):
         with open(f, "rb") as fh:
@@ -134,7 +140,7 @@ def ensure_facts(repo=None, verbose=True):
         env.update({
             "CARGO_NET_OFFLINE": "true",
             "LD_LIBRARY_PATH": sysroot_lib() + ":" + env.get("LD_LIBRARY_PATH", ""),
-            "RUSTFLAGS": "-Zmir-opt-level=0 -Awarnings",
+            "RUSTFLAGS": RUSTFLAGS,
             "RUSTC_WORKSPACE_WRAPPER": DRIVER_BIN,
             "CARGO_TARGET_DIR": target,
             "KV_OUT": tmp,
@@ -165,6 +171,15 @@ def ensure_facts(repo=None, verbose=True):
                 missing.append(c + "(stale)")
         if missing:
             raise FactError("fact files missing after build (driver skipped?): " + ",".join(missing))
+        # per-function offset indexes (so that a check only parses the bodies it needs)
+        try:
+            from .hir import Facts as _F
+        except ImportError:
+            sys.path.insert(0, VERIF)
+            from rules.lib.hir import Facts as _F
+        _f = _F(tmp)
+        for c in _f.crates():
+            _f._index(c)
         os.rename(tmp, fdir)
         with open(okfile, "w") as f:
             f.write(json.dumps({"nonce": nonce, "tree": th, "wall_s": round(time.time() - t0, 1)}))
